@@ -526,6 +526,11 @@ type DrainCase struct {
 	Rounds   int  `json:"rounds"`
 	Churners int  `json:"churners"`
 	Procs    int  `json:"procs"`
+	// ClearPairs: before the fill/drain rounds the main goroutine calls Clear
+	// in a loop until the churners have completed this many Set/Get pairs; a
+	// churner's Get after its own Set may then return nil, never an older
+	// value.
+	ClearPairs int `json:"clear_pairs,omitempty"`
 }
 
 func checkDrain(c DrainCase) error {
@@ -536,7 +541,9 @@ func checkDrain(c DrainCase) error {
 		runtime.GOMAXPROCS(c.Procs)
 	}
 	ch := cache.New(cache.Config{EnableLRU: c.LRU})
-	var stop atomic.Bool
+	var stop, clearing atomic.Bool
+	var pairs atomic.Int64
+	clearing.Store(c.ClearPairs > 0)
 	errs := make([]string, c.Churners)
 	var wg sync.WaitGroup
 	for g := 0; g < c.Churners; g++ {
@@ -545,17 +552,24 @@ func checkDrain(c DrainCase) error {
 			defer wg.Done()
 			key := []byte("churn" + strconv.Itoa(g))
 			for i := 0; !stop.Load(); i++ {
+				cleared := clearing.Load() // sampled before the Set: a Clear may remove the entry
 				v := makeValue(string(key), g, i)
 				ch.Set(key, v)
-				if got := ch.Get(key); string(got) != string(v) && errs[g] == "" {
-					errs[g] = fmt.Sprintf("goroutine %d is the only writer of %q: after its Set(%q) returned, Get returned %q (iteration %d; another goroutine was filling and draining %d other keys)", g, key, v, got, i, c.N)
+				got := ch.Get(key)
+				if string(got) != string(v) && !(cleared && got == nil) && errs[g] == "" {
+					errs[g] = fmt.Sprintf("goroutine %d is the only writer of %q: after its Set(%q) returned, Get returned %q (iteration %d; another goroutine was filling and draining %d other keys; Clear calls in progress: %v)", g, key, v, got, i, c.N, cleared)
 				}
 				if i%3 == 2 {
 					ch.Del(key)
 				}
+				pairs.Add(1)
 			}
 		}()
 	}
+	for c.ClearPairs > 0 && pairs.Load() < int64(c.ClearPairs) {
+		ch.Clear()
+	}
+	clearing.Store(false)
 	for r := 0; r < c.Rounds; r++ {
 		for i := 0; i < c.N; i++ {
 			k := keyName(1000 + i)
@@ -601,6 +615,9 @@ func checkDrain(c DrainCase) error {
 	if c.N > 64 {
 		vp.Class("drain:more-than-64-keys-filled-and-drained")
 	}
+	if c.ClearPairs > 0 {
+		vp.Class("drain:with-a-Clear-storm")
+	}
 	vp.NonTrivialStr("c10.drain", fmt.Sprintf("%+v", c))
 	vp.Sample("drain", c)
 	return nil
@@ -610,11 +627,12 @@ var drainProp = vp.Register(vp.Prop[DrainCase]{
 	Kind: "c10.drain", Base: 60,
 	Gen: func(t *rapid.T) DrainCase {
 		return DrainCase{
-			LRU:      rapid.Bool().Draw(t, "lru"),
-			N:        rapid.SampledFrom([]int{1, 8, 63, 64, 65, 100, 300}).Draw(t, "n"),
-			Rounds:   rapid.IntRange(20, 120).Draw(t, "rounds"),
-			Churners: rapid.IntRange(1, 3).Draw(t, "churners"),
-			Procs:    rapid.SampledFrom([]int{2, 4, 16}).Draw(t, "procs"),
+			LRU:        rapid.Bool().Draw(t, "lru"),
+			N:          rapid.SampledFrom([]int{1, 8, 63, 64, 65, 100, 300}).Draw(t, "n"),
+			Rounds:     rapid.IntRange(20, 120).Draw(t, "rounds"),
+			Churners:   rapid.IntRange(1, 3).Draw(t, "churners"),
+			Procs:      rapid.SampledFrom([]int{2, 4, 16}).Draw(t, "procs"),
+			ClearPairs: rapid.SampledFrom([]int{0, 0, 30000, 150000}).Draw(t, "clearpairs") * map[bool]int{false: 1, true: 4}[vp.Thorough()],
 		}
 	},
 	Check: checkDrain,
